@@ -464,7 +464,7 @@ WellFormed(d) ==
                                     /\ \A j \in DOMAIN o.pred.states : /\ StateOK(o.pred.states[j])
                                                                        /\ o.pred.states[j].t = [k |-> "exact", t |-> o.pred.t0 + j - 1]
                                     /\ o.pred.t0 >= 1
-            /\ o.pred.k = "set" => /\ Len(o.pred.occs) >= 1 /\ o.pred.t0 >= 1
+            /\ o.pred.k = "set" => /\ Len(o.pred.occs) >= 1 /\ o.pred.t0 >= 0
                                    /\ \A c \in Range(o.pred.occs) : TimeOK(c.t, 1) /\ ShapeOK(c.sh)
   /\ \A i \in DOMAIN d.pps : LET p == d.pps[i] IN
        /\ StateOK(p.init) /\ p.init.t = [k |-> "exact", t |-> 0] /\ PopSet(p.init) \subseteq Range(InitialAttrs)
